@@ -80,6 +80,63 @@ def _worker(args):
     return out
 
 
+def _child(job, conn):
+    import resource
+    try:
+        lim = int(os.environ.get('VERIF_GROUP_MEM_GB', '10')) << 30
+        resource.setrlimit(resource.RLIMIT_AS, (lim, lim))
+    except (ValueError, OSError):
+        pass
+    try:
+        out = _worker(job)
+    except MemoryError:
+        out = {'group': job[1], 'results': [{'ob': job[1], 'verdict': 'inconclusive', 'detail': 'group exceeded its memory limit while encoding'}], 'stats': {}}
+    try:
+        conn.send(out)
+    finally:
+        conn.close()
+
+
+def run_jobs(jobs, njobs, group_timeout):
+    """one process per group, at most njobs at a time; a group that exceeds its wall-clock or memory budget is killed and
+    reported as inconclusive (never as a pass)"""
+    ctx = mp.get_context('fork')
+    pending = list(jobs)
+    running = []            # (proc, conn, job, t0)
+    outs = []
+    while pending or running:
+        while pending and len(running) < max(1, njobs):
+            job = pending.pop(0)
+            pc, cc = ctx.Pipe(duplex=False)
+            p = ctx.Process(target=_child, args=(job, cc))
+            p.start()
+            cc.close()
+            running.append((p, pc, job, time.time()))
+        still = []
+        for p, pc, job, t0 in running:
+            got = None
+            if pc.poll(0.05):
+                try:
+                    got = pc.recv()
+                except (EOFError, OSError):
+                    got = None
+                p.join(5)
+                if got is None:
+                    got = {'group': job[1], 'results': [{'ob': job[1], 'verdict': 'inconclusive', 'detail': 'worker process died (exit code %s): out of memory or crash' % p.exitcode}], 'stats': {}}
+                outs.append(got)
+            elif not p.is_alive():
+                p.join(1)
+                outs.append({'group': job[1], 'results': [{'ob': job[1], 'verdict': 'inconclusive', 'detail': 'worker process died (exit code %s): out of memory or crash' % p.exitcode}], 'stats': {}})
+            elif time.time() - t0 > group_timeout:
+                p.kill()
+                p.join(5)
+                outs.append({'group': job[1], 'results': [{'ob': job[1], 'verdict': 'inconclusive', 'detail': 'group exceeded its wall-clock budget of %ds (killed)' % group_timeout}], 'stats': {}, 'wall_s': round(time.time() - t0, 1)})
+            else:
+                still.append((p, pc, job, t0))
+        running = still
+    return outs
+
+
 def main(argv=None):
     ap = argparse.ArgumentParser()
     ap.add_argument('prop')
@@ -124,15 +181,7 @@ def main(argv=None):
         import random
         random.Random(seed).shuffle(order)
     jobs = [(mod_name, gs[i]['name'], tier, seed, ws, binary, sorted(active)) for i in order]
-    outs = []
-    if a.jobs <= 1 or len(jobs) == 1:
-        for j in jobs:
-            outs.append(_worker(j))
-    else:
-        ctx = mp.get_context('fork')
-        with ctx.Pool(min(a.jobs, len(jobs))) as pool:
-            for o in pool.imap_unordered(_worker, jobs):
-                outs.append(o)
+    outs = run_jobs(jobs, a.jobs, 900 if tier == 'quick' else 4200)
     outs.sort(key=lambda o: o['group'])
     return finish(pid, tier, seed, outs, mod, time.time() - t0, msgs)
 
